@@ -87,6 +87,7 @@ func runConfig(repo, goos, goarch string, f propFunc, r *Report) {
 		}
 	}
 	p.ModGraph() // also enables caller-inherited facts (ssah.go:FactsAt)
+	computeBoolFieldsRead(p.ModFuncs)
 	f(p, r)
 	factGraph = nil
 	if p.cg != nil {
@@ -140,6 +141,9 @@ func runMany(repo, verif, list, tier string) int {
 					}
 				}()
 				p.ModGraph()
+				if boolFieldsRead == nil {
+					computeBoolFieldsRead(p.ModFuncs)
+				}
 				f(p, r)
 			}()
 		}
